@@ -789,17 +789,37 @@ func checkRangeBoundsAreIndexKeys(p *Prog, r *Roles, res *Result, rule string) {
 				continue
 			}
 			for ai, a := range c.Common().Args {
-				enc, ok := resolve(a).(*ssa.Call)
-				if !ok || !r.is(enc, r.EncObj) {
-					continue
+				// the encoder call behind the operand: directly, or as what a helper of the package returns in that position
+				var encs []*ssa.Call
+				switch x := resolve(a).(type) {
+				case *ssa.Call:
+					if r.is(x, r.EncObj) {
+						encs = append(encs, x)
+					}
+				case *ssa.Extract:
+					if hc, ok := x.Tuple.(*ssa.Call); ok {
+						if h := hc.Common().StaticCallee(); h != nil && h.Blocks != nil && h.Pkg == bp {
+							for _, hb := range h.Blocks {
+								if ret, ok := hb.Instrs[len(hb.Instrs)-1].(*ssa.Return); ok && x.Index < len(ret.Results) {
+									for _, rv := range allCellValuesOpt(p, ret.Results[x.Index], false) {
+										if e, ok := resolve(rv).(*ssa.Call); ok && r.is(e, r.EncObj) {
+											encs = append(encs, e)
+										}
+									}
+								}
+							}
+						}
+					}
 				}
-				k++
-				n++
-				construct := fmt.Sprintf("%s: range bound #%d (%s argument %d) is an index key", funcName(f), k, c.Common().Method.Name(), ai)
-				if isZeroConst(argForSigParam(enc, 1)) {
-					res.ok(rule, construct, p.pos(enc.Pos()), "EncodeObjectKey(.., 0)")
-				} else {
-					res.bad(rule, construct, p.pos(enc.Pos()), "a range bound is encoded at a revision other than the constant 0: the interval also encloses (or loses) the index record and older versions of the boundary key, so this entry point counts or lists a key its siblings leave out")
+				for _, enc := range encs {
+					k++
+					n++
+					construct := fmt.Sprintf("%s: range bound #%d (%s argument %d) is an index key", funcName(f), k, c.Common().Method.Name(), ai)
+					if isZeroConst(argForSigParam(enc, 1)) {
+						res.ok(rule, construct, p.pos(enc.Pos()), "EncodeObjectKey(.., 0)")
+					} else {
+						res.bad(rule, construct, p.pos(enc.Pos()), "a range bound is encoded at a revision other than the constant 0: the interval also encloses (or loses) the index record and older versions of the boundary key, so this entry point counts or lists a key its siblings leave out")
+					}
 				}
 			}
 		}
